@@ -29,7 +29,8 @@ RULE = ("(A) value mapping: input dtype {u8,i8,i16,u16,i32,u32,f32,f64} x "
         "+ (7,1,2),(9,4,3) x chunk sizes {1^3,2^3,4^3,8^3,(2,4,1),(3,2,2)} x "
         "{3-D, 4-D x2, 4-D x3, RGB} x {full, mmap} with position-coded "
         "voxels; (C) {raw, cseg 8^3, cseg 2^3, jpeg} x {deep/flat x gzip/"
-        "no-gzip, sharded (1,1,0) raw, (2,1,1) gzip, (0,0,0)} on 3 shapes. "
+        "no-gzip, sharded (1,1,0), (0,0,0), (2,1,1), (1,0,1) raw/gzip} on 5 "
+        "shapes. "
         "Quick: A without mmap duplicates on 3 input types per target, B "
         "with 3 chunk sizes on 14 shapes, C in full. Non-trivial: >= 2 "
         "chunks, or a dtype change, or a scaling applied.")
@@ -101,9 +102,16 @@ def build_input(case):
             a = np.array(flat, dtype=dt).reshape(full)
         else:
             idx = np.meshgrid(*[np.arange(s) for s in full], indexing="ij")
-            v = 10 + 4 * idx[0] + 9 * idx[1] + 17 * idx[2]
-            if len(full) == 4:
-                v = v + 60 * idx[3]
+            if case["encoding"] == "jpeg":
+                # smooth and below 256 for every shape used: the JPEG bound
+                # is calibrated on ramps without wrap-around
+                v = 5 + 3 * idx[0] + 7 * idx[1] + 11 * idx[2]
+                if len(full) == 4:
+                    v = v + 40 * idx[3]
+            else:
+                v = 10 + 4 * idx[0] + 9 * idx[1] + 17 * idx[2]
+                if len(full) == 4:
+                    v = v + 60 * idx[3]
             if not ex.is_int_type(dt):
                 v = v * 0.25
             a = v.astype(dt)
@@ -327,8 +335,13 @@ def cases(tier):
                 for f in (False, True) for g in (True, False)]
     storages += [{"kind": "sharded", "triple": [1, 1, 0], "enc": "raw"},
                  {"kind": "sharded", "triple": [2, 1, 1], "enc": "gzip"},
-                 {"kind": "sharded", "triple": [0, 0, 0], "enc": "raw"}]
-    for sh in ((5, 4, 3), (2, 2, 2), (9, 1, 3)):
+                 {"kind": "sharded", "triple": [0, 0, 0], "enc": "raw"},
+                 {"kind": "sharded", "triple": [1, 1, 0], "enc": "gzip"},
+                 {"kind": "sharded", "triple": [0, 0, 0], "enc": "gzip"},
+                 {"kind": "sharded", "triple": [1, 0, 1], "enc": "gzip"}]
+    # grids 3x2x2, 1x1x1, 5x1x2, 4x2x1, 4x4x4: the writer's raster order
+    # differs from the identifier order in several of them
+    for sh in ((5, 4, 3), (2, 2, 2), (9, 1, 3), (8, 4, 2), (8, 8, 8)):
         for enc, block, dt in (("raw", None, "uint16"),
                                ("compressed_segmentation", [8, 8, 8],
                                 "uint32"),
